@@ -22,6 +22,15 @@ theorem select_exact [Inhabited S] (be : Backend) (isZero : S → Bool) (ixs : L
     · simpa using hall
   · cases h
 
+/-- The empty request is a request like any other: on every backend and every body it succeeds and yields the pose of no frames at the same rate
+    (the unchanged TensorFlow body raised here: F17). -/
+theorem select_empty [Inhabited S] (be : Backend) (isZero : S → Bool) (b : PBody S) :
+    ∃ r, selectFrames be isZero [] b = some r ∧ r.data = [] ∧ r.conf = [] ∧ r.fps = b.fps := by
+  have h : selectFrames be isZero [] b = some (mkBody be isZero b.fps (pickD [] b.data) (pickD [] b.conf) (some (pickD [] b.missing))) := by
+    simp [selectFrames]
+  obtain ⟨h1, h2, h3, _⟩ := select_exact be isZero [] b _ h
+  exact ⟨_, h, by simpa using h1, by simpa using h2, h3⟩
+
 /-- Stepping by `k ≥ 1` returns frames `0, k, 2k, …` (all of them below the frame count) and divides the frame rate by `k`. -/
 theorem step_exact [Inhabited S] (be : Backend) (sc : Scalar S) (isZero : S → Bool) (k : Nat) (b r : PBody S) (h : sliceStep be sc isZero k b = some r) :
     0 < k ∧ r.fps = sc.div b.fps (sc.ofNat k) ∧
